@@ -979,7 +979,15 @@ func (g *Gen) indexCatalogSweep() []E {
 	}
 	for i := 0; i+1 < len(live) && i < 2; i++ {
 		for _, dir := range []int{1, -1} {
-			q := []interface{}{[]interface{}{"where", []interface{}{"un", "gte", B(live[i]), []interface{}{"lit", ANil()}}},
+			bound := g.fieldValue(live[i])
+			for k := 0; k < 5 && (bound[0] == "nil" || bound[0] == "obj" || bound[0] == "arr"); k++ {
+				bound = g.fieldValue(live[i])
+			}
+			op := "gte"
+			if g.chance(0.4) {
+				op = "lte"
+			}
+			q := []interface{}{[]interface{}{"where", []interface{}{"un", op, B(live[i]), []interface{}{"lit", bound}}},
 				[]interface{}{"sort", []interface{}{[]interface{}{B(live[i+1]), dir}}}}
 			if g.chance(0.5) {
 				q = append(q, []interface{}{"skip", 1}, []interface{}{"limit", 2})
@@ -1030,6 +1038,55 @@ func (g *Gen) containerSweep() []E {
 		evs = append(evs, E{"op": "FindAll", "c": c, "q": []interface{}{[]interface{}{"where", []interface{}{"un", op, B(f), []interface{}{"lit", g.fieldValue(f)}}}}})
 	}
 	evs = append(evs, E{"op": "FindAll", "c": c, "q": []interface{}{[]interface{}{"where", []interface{}{"un", "gte", B(f), []interface{}{"lit", ANil()}}}, []interface{}{"sort", []interface{}{[]interface{}{B(f), 1}}}}})
+	return evs
+}
+
+// lifecycleSweep: an index (or the whole collection) is dropped, the indexed field is rewritten on the
+// same ids while nothing indexes it, and the index (the collection) comes back: whatever the first
+// life left in the key space would now show up as duplicates or misplaced documents.
+func (g *Gen) lifecycleSweep() []E {
+	c := g.colls[0]
+	var evs []E
+	f := g.pick([]string{"x", "x", "xy", "k"})
+	if !g.idx[c][f] {
+		g.idx[c][f] = true
+		evs = append(evs, E{"op": "CreateIndex", "c": c, "f": B(f)})
+	}
+	free := g.freeIds(c)
+	if len(free) < 3 {
+		return evs
+	}
+	ids := free[:3]
+	mk := func(shift int) []interface{} {
+		var docs []interface{}
+		for i, id := range ids {
+			docs = append(docs, AObj("_id", AStr(id), f, ANum(g.smallN[(i+shift)%len(g.smallN)], "i")))
+		}
+		return docs
+	}
+	evs = append(evs, E{"op": "Insert", "c": c, "docs": mk(0)})
+	g.noteInsert(c, ids...)
+	if g.chance(0.5) {
+		// the index goes and comes back
+		evs = append(evs, E{"op": "DropIndex", "c": c, "f": B(f)})
+		evs = append(evs, E{"op": "UpdateFunc", "c": c, "q": []interface{}{}, "upd": []interface{}{"set", B(f), ANum(g.smallN[len(g.smallN)-1], "i")}})
+		evs = append(evs, E{"op": "CreateIndex", "c": c, "f": B(f)})
+	} else {
+		// the collection goes and comes back with the same ids
+		evs = append(evs, E{"op": "DropCollection", "c": c}, E{"op": "CreateCollection", "c": c})
+		g.live[c] = map[string]bool{}
+		g.idx[c] = map[string]bool{}
+		evs = append(evs, E{"op": "Insert", "c": c, "docs": mk(3)})
+		g.noteInsert(c, ids...)
+		evs = append(evs, E{"op": "CreateIndex", "c": c, "f": B(f)})
+		g.idx[c][f] = true
+	}
+	g.setFocus(c)
+	for _, dir := range []int{1, -1} {
+		evs = append(evs, E{"op": "FindAll", "c": c, "q": []interface{}{[]interface{}{"sort", []interface{}{[]interface{}{B(f), dir}}}}})
+	}
+	evs = append(evs, E{"op": "FindAll", "c": c, "q": []interface{}{[]interface{}{"where", []interface{}{"un", "gte", B(f), []interface{}{"lit", ANum(g.smallN[0], "i")}}}}})
+	evs = append(evs, E{"op": "Count", "c": c, "q": []interface{}{[]interface{}{"where", []interface{}{"un", "lte", B(f), []interface{}{"lit", ANum(g.smallN[len(g.smallN)-1], "i")}}}}})
 	return evs
 }
 
@@ -1112,6 +1169,9 @@ func (g *Gen) History() []E {
 	}
 	if (g.P.Name == "reads" || g.P.Name == "general") && g.P.Indexes && g.chance(0.35) {
 		evs = append(evs, g.containerSweep()...)
+	}
+	if (g.P.Name == "reads" || g.P.Name == "general") && g.P.Indexes && g.chance(0.35) {
+		evs = append(evs, g.lifecycleSweep()...)
 	}
 	for len(evs) < g.P.Ops {
 		op := g.weightedOp()
